@@ -545,7 +545,7 @@ func (st *Runtime) executeList(list *ListNode) (returnValue reflect.Value) {
 						}
 					}
 					if valVarSlot < 0 {
-						st.context = rangeValue
+						st.context = indirectEface(rangeValue)
 					}
 					rangeReturn = st.executeList(node.List)
 					indexValue, rangeValue, end = ranger.Range()
